@@ -2030,7 +2030,12 @@ func (c15) Gen(rng *rand.Rand, tier string, emit func(string)) {
 			continue
 		}
 		// one case in three is run by the model with the VERBATIM kernels (fv / iv / dv: Model/TagV.lean)
+		// (thorough: one in four, and smaller data bases for dv - the verbatim kernels in the compiled model are the
+		// slowest part of the run)
 		verb := g.rng.Intn(3) == 0
+		if tier != "quick" {
+			verb = g.rng.Intn(4) == 0
+		}
 		switch r := g.rng.Intn(20); {
 		case r < 7:
 			if verb {
@@ -2047,6 +2052,9 @@ func (c15) Gen(rng *rand.Rand, tier string, emit func(string)) {
 		case r < 18:
 			if len(refs) > 14 {
 				refs, tx = refs[:14], tx[:14]
+			}
+			if verb && tier != "quick" && len(refs) > 10 {
+				refs, tx = refs[:10], tx[:10]
 			}
 			if verb {
 				emit(fmt.Sprintf("dv%d %s %s %s %s", 1+g.rng.Intn(2), hx(q), c15List(refs), c15Ints(tx), c15Taxo(t)))
